@@ -2,6 +2,7 @@ package gram
 
 import (
 	"io"
+	"strings"
 
 	"github.com/alecthomas/participle/v2/lexer"
 )
@@ -18,11 +19,19 @@ type Profile struct {
 	syms        map[lexer.TokenType]string
 }
 
+// longWord is an identifier longer than any buffer or abbreviation limit a trace or an error message may have.
+const longWord = "abcdefghijklmnopqrstuvwxyzABCDEFGHIJKLMNOPQRSTUVWXYZabcdefgh"
+
+// SpecialFold rewrites s and k as LONG S and KELVIN SIGN (which fold to them but take more bytes).
+func SpecialFold(s string) string {
+	return strings.NewReplacer("s", "\u017f", "k", "\u212a", "S", "\u017f", "K", "\u212a").Replace(s)
+}
+
 // LexDef is the stateful lexer profile. WS (and optionally Comment) are elided by the parser.
 var LexDef = lexer.MustSimple([]lexer.SimpleRule{
 	// (Int before Ident: the symbol numbers then differ from those the default text/scanner lexer gives the same names)
 	{Name: "Int", Pattern: `[0-9]+`},
-	{Name: "Ident", Pattern: `[a-zA-Z]+`},
+	{Name: "Ident", Pattern: `[a-zA-Z\x{17F}\x{212A}]+`}, // (with LONG S and KELVIN SIGN, which fold to s and k)
 	{Name: "Punct", Pattern: `[-+;()]`},
 	{Name: "WS", Pattern: `\s+`},
 	{Name: "Comment", Pattern: `#[a-z ]*#`},
@@ -77,7 +86,7 @@ var profiles = map[string]*Profile{
 	"": {
 		Name: "stateful", Def: LexDef,
 		Vocab: []VTok{
-			{"Ident", "a"}, {"Ident", "b"}, {"Ident", "ab"}, {"Ident", "A"},
+			{"Ident", "a"}, {"Ident", "b"}, {"Ident", "ab"}, {"Ident", "A"}, {"Ident", "sk"}, {"Ident", longWord},
 			{"Int", "1"}, {"Int", "2"}, {"Int", "12"},
 			{"Punct", "+"}, {"Punct", "-"}, {"Punct", ";"}, {"Punct", "("}, {"Punct", ")"},
 		},
@@ -90,7 +99,7 @@ var profiles = map[string]*Profile{
 	"custom": {
 		Name: "custom", Def: CustomDef{inner: LexDef, names: []string{"Comment", "WS", "Punct", "Ident", "Int"}},
 		Vocab: []VTok{
-			{"Ident", "a"}, {"Ident", "b"}, {"Ident", "ab"}, {"Ident", "A"},
+			{"Ident", "a"}, {"Ident", "b"}, {"Ident", "ab"}, {"Ident", "A"}, {"Ident", "sk"}, {"Ident", longWord},
 			{"Int", "1"}, {"Int", "2"}, {"Int", "12"},
 			{"Punct", "+"}, {"Punct", "-"}, {"Punct", ";"}, {"Punct", "("}, {"Punct", ")"},
 		},
@@ -104,7 +113,7 @@ var profiles = map[string]*Profile{
 	"scanner": {
 		Name: "scanner", Def: lexer.TextScannerLexer,
 		Vocab: []VTok{
-			{"Ident", "a"}, {"Ident", "b"}, {"Ident", "ab"}, {"Ident", "A"},
+			{"Ident", "a"}, {"Ident", "b"}, {"Ident", "ab"}, {"Ident", "A"}, {"Ident", "sk"}, {"Ident", longWord},
 			{"Int", "1"}, {"Int", "2"}, {"Int", "12"},
 			{"+", "+"}, {"-", "-"}, {";", ";"}, {"(", "("}, {")", ")"},
 		},
